@@ -72,6 +72,16 @@ impl Dg {
     pub fn centroids(&self) -> Vec<(f64, f64)> {
         dispatch!(self, d => d.verif_centroids())
     }
+    /// TDigest::clone_from on the inner digest (Dg's own derived clone_from would go through clone())
+    pub fn clone_from_inner(&mut self, src: &Dg) {
+        match (self, src) {
+            (Dg::K0(a), Dg::K0(b)) => a.clone_from(b),
+            (Dg::K1(a), Dg::K1(b)) => a.clone_from(b),
+            (Dg::K2(a), Dg::K2(b)) => a.clone_from(b),
+            (Dg::K3(a), Dg::K3(b)) => a.clone_from(b),
+            _ => panic!("clone_from_inner: different scale functions"),
+        }
+    }
     pub fn n_samples(&self) -> (usize, usize) {
         dispatch!(self, d => d.verif_n_samples())
     }
